@@ -62,11 +62,25 @@ func (h *Handler) HandleMessage(msg stanza.Message, r xmlstream.TokenReadEncoder
 	if err != nil {
 		return err
 	}
-	tok, err := r.Token()
-	if err != nil {
-		return err
+	var (
+		tok   xml.Token
+		start xml.StartElement
+	)
+	// Skip character data before the first payload.
+	for {
+		tok, err = r.Token()
+		if err != nil {
+			return err
+		}
+		var ok bool
+		start, ok = tok.(xml.StartElement)
+		if ok {
+			break
+		}
+		if _, ok = tok.(xml.EndElement); ok {
+			return nil
+		}
 	}
-	start := tok.(xml.StartElement)
 	var queryID string
 	for _, attr := range start.Attr {
 		if attr.Name.Local == "queryid" {
